@@ -11,8 +11,8 @@ The file system is a finite map from names to entries.
 * `makeFolder`   : `DataStore.make_folder` — argument checks, date directory, existence check, mkdir.
 * `findLatest`   : `DataStore.find_latest_folder` — reverse-sorted listing, first match.
 
-Regexes are re-implemented as functions (`$` also matches before one trailing newline — the
-model keeps that quirk).  Core Lean only.
+Regexes are re-implemented as functions (`re.fullmatch` since fix 7d3961f: no trailing-newline
+quirk any more).  Core Lean only.
 -/
 namespace QmiModel.C17
 
@@ -24,22 +24,18 @@ def nameChar (c : Nat) : Bool := c = 45 || c = 95 || isAlnum c || c = 40 || c = 
 /-- `[-_a-zA-Z0-9().,]` -/
 def labelChar (c : Nat) : Bool := nameChar c || c = 46
 
-/-- what is left for the pattern body once `$` has taken an optional final newline -/
-def stripNL (s : Str) : Str := if s.getLast? = some 10 then s.dropLast else s
+/-- `re.fullmatch("[cls]+", s)` -/
+def matchPlus (p : Nat → Bool) (s : Str) : Bool := !s.isEmpty && s.all p
+/-- `re.fullmatch("[0-9]{n}", s)` -/
+def matchDigitsN (n : Nat) (s : Str) : Bool := s.length = n && s.all isDigit
 
-/-- `re.match("^[cls]+$", s)` -/
-def matchPlus (p : Nat → Bool) (s : Str) : Bool := !(stripNL s).isEmpty && (stripNL s).all p
-/-- `re.match("^[0-9]{n}$", s)` -/
-def matchDigitsN (n : Nat) (s : Str) : Bool := (stripNL s).length = n && (stripNL s).all isDigit
-
-/-- `re.match(r"^([0-9]{6})_(.+)$", ff)`: the two groups (`.` does not match a newline) -/
+/-- `re.fullmatch(r"([0-9]{6})_(.+)", ff)`: the two groups (`.` does not match a newline) -/
 def matchFolderName (ff : Str) : Option (Str × Str) :=
   let t := ff.take 6
   let r := ff.drop 6
   if t.length = 6 && t.all isDigit then
     match r with
-    | 95 :: lab0 =>
-      let lab := stripNL lab0
+    | 95 :: lab =>
       if !lab.isEmpty && !lab.contains 10 then some (t, lab) else none
     | _ => none
   else none
